@@ -1318,6 +1318,11 @@ def converge_check(case, sched, spec, run, root, stats) -> List[Dict[str, Any]]:
 
 
 def execute(case: Dict[str, Any]) -> Dict[str, Any]:
+    with C.scratch_lock(RUN_ROOT / f"{case.get('seed', 0):016x}"):
+        return _execute_locked(case)
+
+
+def _execute_locked(case: Dict[str, Any]) -> Dict[str, Any]:
     C.import_pyrefact()
     seed = case.get("seed", 0)
     root = str(RUN_ROOT / f"{seed:016x}")
@@ -1396,7 +1401,7 @@ def execute(case: Dict[str, Any]) -> Dict[str, Any]:
         "stats": dict(stats),
         "signatures": signatures,
         "evaluations": 1,
-        "log": log.lines() if violations else None,
+        "log": log.lines() if (violations or os.environ.get("VERIF_FULL_LOG")) else None,
     }
 
 
